@@ -1,5 +1,6 @@
 import QuickAdd.Lemmas.RulesTotalAll
 import QuickAdd.Lemmas.SearchTotal
+import QuickAdd.Lemmas.DigitGroups
 /-!
 # C01 (continued) — one statement for all value-level productions
 
@@ -105,6 +106,22 @@ theorem parse_total {S : Type} (sc : Scorer S) (ts : Ts) (hts : TsOk ts) (o : Op
   split
   · simp only [hl]; exact hs
   · exact hs
+
+/-- hypothesis (a) follows from a condition on the text alone: **no code point of the eight listed digit blocks this interpreter's
+    `int()` does not know** (`Gen.intUnknown`, known finding D6).  Every body of the groups the productions convert is digit-only
+    and not nullable (evaluated over the regenerated table), every decimal digit is known to `int()` or listed (all code points
+    of the class evaluated) -/
+theorem tokInt_of_text (txt : List Nat) (hne : NoExotic txt) : ∀ a ∈ matchRegex txt, ∀ k, a.v = .tok k → TokInt k :=
+  QuickAdd.tokInt_of_text txt hne
+
+/-- `parse_total` with hypothesis (a) discharged: for every raw text whose normalised, label-free form contains none of the listed
+    unknown digits -/
+theorem parse_total_text {S : Type} (sc : Scorer S) (ts : Ts) (hts : TsOk ts) (o : Opts) (raw : List Nat) (fuel : Nat)
+    (hne : NoExotic (stripLabels (preprocess raw)))
+    (hyear : ∀ p t rules, ReachE (mkCfg sc ts o.depth (stripLabels (preprocess raw)))
+        (initialStack sc o.depth o.relMatchLenNum o.relMatchLenDen (stripLabels (preprocess raw)) fuel).1 p t rules → ∀ a ∈ p, a.v.YearLe 9990) :
+    (ctparseGen sc ts o raw fuel).err = none ∨ (ctparseGen sc ts o raw fuel).err = some .unmodelled :=
+  parse_total sc ts hts o raw fuel (QuickAdd.tokInt_of_text _ hne) hyear
 
 /-- hypothesis (a) is met by ordinary tokens: '5pm' has a numeric group that converts and a marker group that is never converted -/
 example : TokInt { id := 128, caps := [("ampm", [112, 109]), ("hour", [53])] } := by
